@@ -193,6 +193,30 @@ def enumerate_terminal_forks() -> Iterator[Any]:
         yield ["seq", [a, ["fork", op1, brs]]]
 
 
+def enumerate_bunched() -> Iterator[Any]:
+    """F-adjacent definitions (a branch that begins with a fork): forks opened directly under one another, two and
+    three levels deep, every pair of operators, with or without an event after the inner fork, 2-3 outer branches —
+    A; op1{ op2{B|C} [;X] | D [| E] }; F and A; op1{ op2{ op1{B|C} [;X] | D } [;Y] | E }; F.  Left out: the three-level
+    AND/OR mixtures, which the unchanged learner over-approximates (the mixed-OR caveat of C06).  The other 64 satisfy
+    C01, C02 and C05 on the unchanged tree"""
+    import itertools
+    ops = ("AND", "OR", "XOR")
+    for op1, op2, after, depth3, nb in itertools.product(ops, ops, (0, 1), (0, 1), (2, 3)):
+        if depth3 and {op1, op2} == {"AND", "OR"}:
+            continue
+        ng = NameGen()
+
+        def E() -> Any:
+            return ["ev", ng.fresh()]
+        a = E()
+        inner = ["fork", op2, [["seq", [E()]], ["seq", [E()]]]]
+        if depth3:
+            inner = ["fork", op2, [["seq", [["fork", op1, [["seq", [E()]], ["seq", [E()]]]]] + ([E()] if after else [])],
+                                   ["seq", [E()]]]]
+        brs = [["seq", [inner] + ([E()] if after else [])]] + [["seq", [E()]] for _ in range(nb - 1)]
+        yield ["seq", [a, ["fork", op1, brs], E()]]
+
+
 def enumerate_staged_rejoins() -> Iterator[Any]:
     """F-adjacent definitions (outside F's grammar: a branch that begins with a fork): nested forks of one operator
     whose branches re-join in 2-3 successive stages at different events, with or without a branch that ends the job
